@@ -278,7 +278,7 @@ func vfC01Run(c vfC01Case, ctx *vfCtx) *vfViolation {
 				}
 				delete(m.live, id)
 				m.resident[id] = true
-					sawRemove = true
+				sawRemove = true
 			}
 			ctx.Class("purge(several removals, then flush)")
 			op.Op = "flush"
